@@ -508,9 +508,16 @@ pub mod internal {
 
         let root_module = semantic::resolve(pl).map_err(ErrorMessages::from)?;
 
-        let (main, _) = root_module.find_main_rel(&[]).unwrap();
-        let mut fc =
-            semantic::reporting::collect_frames(*main.clone().into_relation_var().unwrap());
+        let (main, _) = root_module.find_main_rel(&[]).map_err(|(hint, span)| {
+            let message = hint.unwrap_or_else(|| "Missing main pipeline".to_string());
+            ErrorMessages::from(Error::new_simple(message).with_span(span))
+        })?;
+        let ir::decl::TableExpr::RelationVar(main) = main.clone() else {
+            return Err(ErrorMessages::from(Error::new_simple(
+                "the main pipeline is not a relational expression",
+            )));
+        };
+        let mut fc = semantic::reporting::collect_frames(*main);
         fc.ast = ast;
 
         Ok(fc)
